@@ -28,6 +28,9 @@ pub struct BRule {
     pub cond: Cond,
     /// assignments `field = literal`
     pub heads: Vec<(String, V)>,
+    /// `Some(k)`: before the k-th assignment (k = number of assignments: after the last one) stands an action that
+    /// fails when it runs -- a method call on an object no fact holds (`Missing.poke()`). Only C10 part A sets it.
+    pub fails_at: Option<usize>,
 }
 
 #[derive(Clone, Debug, PartialEq)]
@@ -195,7 +198,7 @@ pub fn gen_kb(s: &mut Src, max_rules: usize, force_monotone: Option<bool>) -> Kb
             heads.push((dname(j), if s.bool() { good(&kb, j) } else { bad(&kb, j) }));
         }
         let salience = [0, 0, 5, 10][s.below(4)];
-        kb.rules.push(BRule { name: format!("r{}", i), salience, cond, heads });
+        kb.rules.push(BRule { name: format!("r{}", i), salience, cond, heads, fails_at: None });
     }
     kb
 }
@@ -265,7 +268,10 @@ pub fn gen_cfg(s: &mut Src, memo: bool) -> Cfg {
 pub fn build_kb(kb: &Kb) -> KnowledgeBase {
     let k = KnowledgeBase::new("bc");
     for r in &kb.rules {
-        let actions = r.heads.iter().map(|(f, v)| ActionType::Set { field: f.clone(), value: v.to_engine() }).collect();
+        let mut actions: Vec<ActionType> = r.heads.iter().map(|(f, v)| ActionType::Set { field: f.clone(), value: v.to_engine() }).collect();
+        if let Some(k) = r.fails_at {
+            actions.insert(k.min(actions.len()), ActionType::MethodCall { object: "Missing".to_string(), method: "poke".to_string(), args: vec![] });
+        }
         let rule = Rule::new(r.name.clone(), cond_to_engine(&r.cond), actions).with_salience(r.salience);
         let _ = k.add_rule(rule);
     }
@@ -300,7 +306,13 @@ pub fn render(kb: &Kb, st: &Store) -> String {
             r.name,
             r.salience,
             r.cond.grl(0),
-            r.heads.iter().map(|(f, v)| format!("{} = {}", f, v.grl())).collect::<Vec<_>>().join("; ")
+            {
+                let mut a: Vec<String> = r.heads.iter().map(|(f, v)| format!("{} = {}", f, v.grl())).collect();
+                if let Some(k) = r.fails_at {
+                    a.insert(k.min(a.len()), "Missing.poke() [fails: no such object]".to_string());
+                }
+                a.join("; ")
+            }
         ));
     }
     s.push_str(&format!("  facts: {}", st.render()));
